@@ -18,7 +18,7 @@ def showAwait (kind : Nat) (nAw : Nat) (s : Await.State) : String :=
   let aws := (List.range nAw).map fun i =>
     let a := s.aw i
     let tr := String.ofList (List.replicate a.pendings 'P') ++
-      (if a.pc == .ready then (if kind == 0 then "R" else "R7") else "")
+      (if a.pc == .ready then (if kind == 0 then "R" else s!"R{a.got}") else "")
     let st := match a.pc with
       | .ready => "ready"
       | .gaveUp => "gaveup"
@@ -33,14 +33,14 @@ def showAwait (kind : Nat) (nAw : Nat) (s : Await.State) : String :=
   let verdict := if stuck then "fail hang" else if lost then "fail lost-wakeup" else "ok"
   s!"p={p}{String.join aws}{fin} ## {verdict}"
 
-def doAwait (kind nAw polls : String) (sched : String) : String :=
+def doAwait (kind nAw polls reloads : String) (sched : String) : String :=
   let k := match kind with | "ready" => some 0 | "value" => some 1 | "ref" => some 2 | _ => none
-  match k, parseNat? nAw, parseNat? polls, parseSched sched with
-  | some k, some nAw, some polls, some sc =>
-    if nAw == 0 || nAw > 3 || polls == 0 || polls > 4 then "bad-op" else
-    let s := Await.run (Await.init (k != 0) polls) (sc ++ tail (nAw + 1))
+  match k, parseNat? nAw, parseNat? polls, parseNat? reloads, parseSched sched with
+  | some k, some nAw, some polls, some reloads, some sc =>
+    if nAw == 0 || nAw > 3 || polls == 0 || polls > 4 || reloads > 2 then "bad-op" else
+    let s := Await.run (Await.initR (k != 0) polls reloads) (sc ++ tail (nAw + 1))
     showAwait k nAw s
-  | _, _, _, _ => "bad-op"
+  | _, _, _, _, _ => "bad-op"
 
 -- ---------------------------------------------------------------- dnotify / dwrite
 
@@ -242,6 +242,47 @@ def doGraph (spec ini gates progs sched : String) : String :=
     | _, _ => "bad-op"
   | _, _ => "bad-op"
 
+def parseDOp (n party : Nat) (o : String) : Option Graph.Op :=
+  if o == "p" then (if party == 0 then some .poll else none) else
+  match o.toList with
+  | 'g' :: v => (parseNat? (String.ofList v)).bind fun v => if v < n then some (.get v) else none
+  | 'a' :: v => (parseNat? (String.ofList v)).bind fun v => if v < 1000 then some (.set v) else none
+  | 'b' :: v => (parseNat? (String.ofList v)).bind fun v => if v < 1000 then some (.setB v) else none
+  | _ => none
+
+def doDerived (spec progs sched : String) : String :=
+  match parseGraph spec with
+  | some defs =>
+    let ps := progs.splitOn "/"
+    let parsed := (List.range ps.length).mapM fun i =>
+      let p := ps.getD i ""
+      if p == "-" then some [] else (p.splitOn ",").mapM (parseDOp defs.length i)
+    match parsed, parseSched sched with
+    | some progs, some sc =>
+      if progs.isEmpty || progs.length > 3 || progs.any (·.length > 5) then "bad-op" else
+      let n := progs.length
+      let s := Graph.run (Graph.initDerived defs progs) (sc ++ tail n)
+      let parts := (List.range n).map fun i =>
+        let th := s.ts i
+        let rs := th.results.map showGRes ++ List.replicate (th.prog.length - th.results.length) "?"
+        s!"p{i}={if rs.isEmpty then "-" else ",".intercalate rs} "
+      if !Graph.allFinished s n then s!"{String.join parts}fin=- ## fail hang" else
+      let sf := Graph.finalPoll s
+      let sm := Graph.readAll sf
+      let ms := (sm.ts n).results
+      let sc := Graph.scratch defs sf.sig
+      let resPanic := ((List.range n).any fun i => (s.ts i).results.any (· == .panic)) ||
+        (sf.ts 0).results.any (· == .panic) || ms.any (· == .panic)
+      let want := sc.getLastD 0 * 1000 + sf.sigB
+      let v := match sf.der.value with | some v => toString v | none => "none"
+      let memoStale := (ms.zip sc).any fun (r, w) => match r with | .val x => x != w | _ => false
+      let verdict := if resPanic then "fail memo-read-panic"
+        else if memoStale then "fail memo-stale"
+        else if sf.der.value != some want then "fail derived-stale" else "ok"
+      s!"{String.join parts}fin={v}:{sf.sig},{sf.sigB} m={",".intercalate (ms.map showGRes)} ## {verdict}"
+    | _, _ => "bad-op"
+  | none => "bad-op"
+
 def doImm (spec prog : String) : String :=
   match parseGraph spec with
   | some defs =>
@@ -301,12 +342,14 @@ def step (_ : Unit) (line : String) : Unit × String :=
   let out :=
     match words line with
     | ["case", n] => s!"case {n}"
-    | ["await", kind, nAw, polls, sc] => doAwait kind nAw polls sc
+    | ["await", kind, nAw, polls, sc] => doAwait kind nAw polls "0" sc
+    | ["awaitr", kind, nAw, polls, reloads, sc] => doAwait kind nAw polls reloads sc
     | ["dnotify", k, sc] => doDnotify k sc
     | ["dwrite", kind, polls, sc] => doDwrite kind polls sc
     | ["chan", polls, ms, sc] => doChan polls ms sc
     | ["memo", ini, progs, sc] => doMemo ini progs sc
     | ["graph", spec, ini, gates, progs, sc] => doGraph spec ini gates progs sc
+    | ["derived", spec, progs, sc] => doDerived spec progs sc
     | ["imm", spec, prog] => doImm spec prog
     | ["sig", progs, sc] => doSig progs sc
     | ["stress", "effect", seed, wr, it] =>
